@@ -53,6 +53,8 @@ POOL = [
     ("y ~ bs(x, df=3) + (bs(x, df=3)|g)", ["y", "x", "g"], False),
     ("y ~ addk(np.log(x), k=addk(z, k=w))", ["y", "x", "z", "w"], True),
     ("y ~ I(x > 2) + I(z == 1)", ["y", "x", "z"], False),
+    ("y ~ z + (x|g)", ["y", "z", "x", "g"], True),
+    ("y ~ (0 + np.log(x)|g) + (w|h)", ["y", "x", "g", "w", "h"], True),
 ]
 UNUSED = ["u1", "u2", "k"]
 N = 6
@@ -129,6 +131,11 @@ def patterns(used, tier):
         return out
     small = [(r, c) for r in range(4 if tier == "quick" else N) for c in cols]
     out += [list(p) for p in itertools.combinations(small, 2)]
+    for c in [c_ for c_ in used if c_ in NUMERIC]:  # no complete row at all
+        out.append([(r, c) for r in range(N)])
+    nums = [c_ for c_ in used if c_ in NUMERIC]
+    if len(nums) >= 2:
+        out.append([(r, nums[r % 2]) for r in range(N)])
     for r in (1, 4):  # a whole row missing in every subset of the columns (sizes 3+)
         for k in range(3, len(cols) + 1):
             for sub in itertools.combinations(cols, k):
@@ -193,9 +200,12 @@ def check_patterns(case, acc):
         acc.case(case, "not-encodable-on-this-frame")  # e.g. C(<ordered categorical declaring an unobserved category>)
         return
     terms_of = {}
+    gterms_of = {}
     dm0 = build(f, ref_frame)
     if dm0.common is not None:
         terms_of = {k: (v.start, v.stop) for k, v in dm0.common.slices.items()}
+    if dm0.group is not None:
+        gterms_of = {k: (v.start, v.stop) for k, v in dm0.group.slices.items()}
     nhit = 0
     pats = patterns(used, case["tier"])
     for cells in pats:
@@ -254,7 +264,7 @@ def check_patterns(case, acc):
             except Exception as e:
                 problems.setdefault(("pass-keeps-rows", exc_sig(e)), f"{tag}: na_action='pass' raised {type(e).__name__}: {e}")
                 continue
-            for nm in ("response", "common"):
+            for nm in ("response", "common", "group"):
                 a, b = full[nm], gp[nm]
                 if a is None:
                     continue
@@ -268,6 +278,10 @@ def check_patterns(case, acc):
                     if nm == "response":
                         if c in ("y", "s", "n"):
                             exp[r, :] = np.nan
+                    elif nm == "group":
+                        for tname, (lo, hi) in gterms_of.items():
+                            if c in names_in(tname.split("|")[0]):
+                                exp[r, lo:hi] = np.nan  # every slot: the values are multiplied by the indicators
                     else:
                         for tname, (lo, hi) in terms_of.items():
                             if c in names_in(tname) or (" " in c and c in tname):
